@@ -5,5 +5,5 @@ package inject
 
 import "embed"
 
-//go:embed simrt simos simtime simrand simrand2 simcrand simioutil simsync simruntime gsim act harness
+//go:embed simrt simos simtime simrand simrand2 simcrand simioutil simsync simruntime gsim gsync act harness
 var FS embed.FS
